@@ -10,31 +10,31 @@ import (
 // consults no PRNG at all.
 
 type Config struct {
-	Property  string             `json:"property"`
-	Blocks    int                `json:"blocks"`
-	NActors   int                `json:"nActors"`
-	NVals     int                `json:"nVals"`
-	TxMean    float64            `json:"txMean"`
-	KindW     map[string]float64 `json:"kindW"`
-	PInvalid  float64            `json:"pInvalid"`
-	PAbsent   float64            `json:"pAbsent"`
-	POutage   float64            `json:"pOutage"`
-	PEvidence float64            `json:"pEvidence"`
-	PTimeJump float64            `json:"pTimeJump"`
-	PTamper   float64            `json:"pTamper"`
-	PGarbage  float64            `json:"pGarbage"`
-	PDup      float64            `json:"pDup"`
-	PReplay   float64            `json:"pReplay"`
-	Followers int                `json:"followers"`
-	Noisy     bool               `json:"noisy"`
-	SideMean  float64            `json:"sideMean"`
-	PRestart  float64            `json:"pRestart"`
-	PCrash    float64            `json:"pCrash"`
-	CrashEnum int                `json:"crashEnum"` // number of blocks whose crash points are all enumerated
-	PLag      float64            `json:"pLag"`
-	QueryMean float64            `json:"queryMean"`
-	EVM       bool               `json:"evm"`
-	AvoidKnown bool              `json:"avoidKnown"` // do not generate the shapes of listed known findings
+	Property   string             `json:"property"`
+	Blocks     int                `json:"blocks"`
+	NActors    int                `json:"nActors"`
+	NVals      int                `json:"nVals"`
+	TxMean     float64            `json:"txMean"`
+	KindW      map[string]float64 `json:"kindW"`
+	PInvalid   float64            `json:"pInvalid"`
+	PAbsent    float64            `json:"pAbsent"`
+	POutage    float64            `json:"pOutage"`
+	PEvidence  float64            `json:"pEvidence"`
+	PTimeJump  float64            `json:"pTimeJump"`
+	PTamper    float64            `json:"pTamper"`
+	PGarbage   float64            `json:"pGarbage"`
+	PDup       float64            `json:"pDup"`
+	PReplay    float64            `json:"pReplay"`
+	Followers  int                `json:"followers"`
+	Noisy      bool               `json:"noisy"`
+	SideMean   float64            `json:"sideMean"`
+	PRestart   float64            `json:"pRestart"`
+	PCrash     float64            `json:"pCrash"`
+	CrashEnum  int                `json:"crashEnum"` // number of blocks whose crash points are all enumerated
+	PLag       float64            `json:"pLag"`
+	QueryMean  float64            `json:"queryMean"`
+	EVM        bool               `json:"evm"`
+	AvoidKnown bool               `json:"avoidKnown"` // do not generate the shapes of listed known findings
 }
 
 type GenActor struct {
@@ -43,10 +43,10 @@ type GenActor struct {
 }
 
 type GenesisSpec struct {
-	ChainID     string     `json:"chainId"`
-	TimeUnix    int64      `json:"timeUnix"`
-	Actors      []GenActor `json:"actors"`
-	Gov         GovP       `json:"gov"`
+	ChainID  string     `json:"chainId"`
+	TimeUnix int64      `json:"timeUnix"`
+	Actors   []GenActor `json:"actors"`
+	Gov      GovP       `json:"gov"`
 }
 
 type Mutation struct {
@@ -55,29 +55,29 @@ type Mutation struct {
 }
 
 type Intent struct {
-	Kind   string    `json:"k"`
-	Actor  int       `json:"a"`
-	To     string    `json:"to,omitempty"`  // a<i> actor, c<i> contract, z zero, x<i> fresh address, h:<hex>
-	Amt    string    `json:"amt,omitempty"` // n:<dec> | pow:<n> | bal<+-k> (balance-fee+k) | claim<+-k> | 2^255 ...
-	Nonce  int       `json:"nd,omitempty"`  // delta to the correct nonce
-	Gas    string    `json:"gas,omitempty"` // "" = sensible default | min | min-1 | n:<dec>
-	Price  string    `json:"price,omitempty"`
-	Stake  int       `json:"stake,omitempty"` // stake sequence number (unstake)
-	Prop   int       `json:"prop,omitempty"`  // proposal index (vote)
-	Choice int32     `json:"choice,omitempty"`
-	Start  int64     `json:"start,omitempty"` // proposal: offsets relative to the block height
-	Period int64     `json:"period,omitempty"`
-	Apply  int64     `json:"apply,omitempty"` // offset relative to start+period+lazyApplying
-	Opts   []string  `json:"opts,omitempty"`
-	OptType int32    `json:"optType,omitempty"`
-	Name   string    `json:"name,omitempty"`
-	URL    string    `json:"url,omitempty"`
-	Data   string    `json:"data,omitempty"` // hex: init code (deploy) or calldata (call)
-	Raw    string    `json:"raw,omitempty"`  // hex: garbage bytes delivered as they are
-	Mut    *Mutation `json:"mut,omitempty"`
-	Repeat int       `json:"rep,omitempty"`
-	Replay int       `json:"replay,omitempty"` // kind "replay": index into the history of included txs
-	WrongChain bool  `json:"wrongChain,omitempty"`
+	Kind       string    `json:"k"`
+	Actor      int       `json:"a"`
+	To         string    `json:"to,omitempty"`  // a<i> actor, c<i> contract, z zero, x<i> fresh address, h:<hex>
+	Amt        string    `json:"amt,omitempty"` // n:<dec> | pow:<n> | bal<+-k> (balance-fee+k) | claim<+-k> | 2^255 ...
+	Nonce      int       `json:"nd,omitempty"`  // delta to the correct nonce
+	Gas        string    `json:"gas,omitempty"` // "" = sensible default | min | min-1 | n:<dec>
+	Price      string    `json:"price,omitempty"`
+	Stake      int       `json:"stake,omitempty"` // stake sequence number (unstake)
+	Prop       int       `json:"prop,omitempty"`  // proposal index (vote)
+	Choice     int32     `json:"choice,omitempty"`
+	Start      int64     `json:"start,omitempty"` // proposal: offsets relative to the block height
+	Period     int64     `json:"period,omitempty"`
+	Apply      int64     `json:"apply,omitempty"` // offset relative to start+period+lazyApplying
+	Opts       []string  `json:"opts,omitempty"`
+	OptType    int32     `json:"optType,omitempty"`
+	Name       string    `json:"name,omitempty"`
+	URL        string    `json:"url,omitempty"`
+	Data       string    `json:"data,omitempty"` // hex: init code (deploy) or calldata (call)
+	Raw        string    `json:"raw,omitempty"`  // hex: garbage bytes delivered as they are
+	Mut        *Mutation `json:"mut,omitempty"`
+	Repeat     int       `json:"rep,omitempty"`
+	Replay     int       `json:"replay,omitempty"` // kind "replay": index into the history of included txs
+	WrongChain bool      `json:"wrongChain,omitempty"`
 }
 
 type EvSpec struct {
@@ -87,7 +87,7 @@ type EvSpec struct {
 
 type Side struct {
 	Replica int     `json:"r"`
-	At      string  `json:"at"` // yield point name
+	At      string  `json:"at"`   // yield point name
 	Kind    string  `json:"kind"` // check | query
 	Intent  *Intent `json:"intent,omitempty"`
 	BlockTx int     `json:"blockTx,omitempty"` // check: -1 or index of a tx of the current block (+1)
@@ -99,7 +99,7 @@ type Side struct {
 type Fault struct {
 	Kind    string `json:"kind"` // crashfork | restart | lag
 	Replica int    `json:"r"`
-	At      string `json:"at"` // yield point or commit-write point name
+	At      string `json:"at"`               // yield point or commit-write point name
 	Follow  int    `json:"follow,omitempty"` // how many blocks the forked node follows
 }
 
